@@ -45,6 +45,70 @@ def _c12_nontrivial(lines):
     return (big or len(sess) > 1) and any(l.split(" ")[0] in ("trunc", "flip", "setb", "recover") for l in lines)
 
 
+def c05_judge(op, impl, spec):
+    """pipeline observations: `atomic` (per-batch all-or-nothing below the horizon, failed commits invisible, horizon
+    never inside a batch), `vis>=N` (horizon monotone), `nohang`, `nopanic`; `*` accepts anything"""
+    if "HANG" in impl or "PANIC" in impl or impl.startswith("err") or impl == "bad-op":
+        return False
+    if spec in ("*",):
+        return True
+    if spec == "-":
+        return impl == "-"
+    iv = dict(t.split("=", 1) for t in impl.split() if "=" in t)
+    for tok in spec.split():
+        if tok == "atomic":
+            if "vis" not in iv or "parts" not in iv:
+                return False
+            v = int(iv["vis"])
+            if iv["parts"] != "-":
+                for part in iv["parts"].split(";"):
+                    rng, kc, status = part.split(":")
+                    f, l = (int(x) for x in rng.split("-"))
+                    k, c = (int(x) for x in kc.split("/"))
+                    if l <= v:
+                        if status == "failed":
+                            if k != 0:
+                                return False
+                        elif k != c:
+                            return False
+                    elif f <= v:
+                        return False
+        elif tok.startswith("vis>="):
+            if "vis" not in iv or int(iv["vis"]) < int(tok[5:]):
+                return False
+        elif tok in ("nohang", "nopanic"):
+            pass
+        elif tok == "fcw":
+            # first committer wins over the commit log start/keys/first/result
+            if "log" not in iv:
+                return False
+            recs = []
+            if iv["log"] != "-":
+                for r in iv["log"].split(";"):
+                    st, ks, f, res = r.split("/")
+                    recs.append((int(st), set(ks.split(".")), None if f == "-" else int(f), len(ks.split(".")), res))
+            oks = [r for r in recs if r[4] == "ok" and r[2] is not None]
+            for a in oks:
+                for b in oks:
+                    if a[2] < b[2] and (a[1] & b[1]):
+                        # b committed after a on a shared key: b must have begun at/after a's last seq
+                        if b[0] < a[2] + a[3] - 1:
+                            return False
+            # no false abort (without injected failures in the log): a conflict needs a successful later-stamped writer
+            if not any(r[4].startswith("err") for r in recs):
+                for r in recs:
+                    if r[4] == "conflict" and not any((o[1] & r[1]) and o[2] + o[3] - 1 > r[0] for o in oks):
+                        return False
+        else:
+            return False
+    return True
+
+
+def _c05_nontrivial(lines):
+    # at least two commits in flight and at least one probe
+    return sum(l.startswith("begin") for l in lines) >= 2 and any(l.startswith("probe") for l in lines)
+
+
 PROPS = {
     "C08": {
         "lean": ["Skv.Props.C08"],
@@ -92,6 +156,11 @@ PROPS = {
         "streams": [
             {"name": "oracle", "harness": "c04", "driver": "c04", "quick_cases": 3000, "thorough_cases": 60000,
              "nontrivial": lambda lines: any(l.startswith("fail") for l in lines) and sum(l.startswith("commit") for l in lines) >= 2},
+            # the real CommitPipeline under schedules (shared harness with C05), judged on first-committer-wins only
+            {"name": "pipeline", "harness": "c05", "driver": "c05", "quick_cases": 300, "thorough_cases": 4000,
+             "nontrivial": _c05_nontrivial,
+             "judge": lambda op, impl, spec: (c05_judge(op, impl, "fcw") if "fcw" in spec.split()
+                                              else not ("PANIC" in impl or "HANG" in impl or impl == "bad-op"))},
         ],
         "rule": "pipeline-shaped operation strings on the real CommitOracle: commits (check + seq allocation + publish) over 1-3 keys "
                 "with starts aimed at stamps of earlier commits, rollbacks of live batches, pure probes, bursts of 1000-1100 filler "
@@ -99,10 +168,31 @@ PROPS = {
                 "compared with the model and with the first-committer-wins specification over the list of live batches; "
                 "non-trivial = at least two commits and one rollback; distinct = distinct op lists",
         "assumptions": [
-            "check + sequence allocation + publish form one atomic step (they run under write_mutex in CommitPipeline::commit); "
-            "the real pipeline's adherence to that is covered by the schedule stream of C05",
+            "check + sequence allocation + publish form one atomic step of the oracle model (they run under write_mutex in "
+            "CommitPipeline::commit); the real pipeline's adherence to that is checked by the `pipeline` stream: schedules of "
+            "begin / commit steps at the verif_yield! points with conflicting keys, judged on first-committer-wins",
             "xxh3 fingerprints of the test keys do not collide (a collision could only add conflicts)",
         ],
         "trusted_base": ["modelled, not verified: CommitOracle::{check,publish,rollback,reset_for_restore}; GC interval regenerated from src/oracle.rs"],
+    },
+    "C05": {
+        "lean": ["Skv.Props.C05"],
+        "audit": "Skv/Audit/C05.lean",
+        "streams": [
+            {"name": "pipeline", "harness": "c05", "driver": "c05", "quick_cases": 400, "thorough_cases": 6000,
+             "nontrivial": _c05_nontrivial, "judge": c05_judge},
+        ],
+        "rule": "the real CommitPipeline over a mock environment, 2-4 (thorough 2-6) committer threads held at the crate's "
+                "verif_yield! points and at per-entry gates inside apply; random schedules of begin/step/probe (10-60 ops, "
+                "<= 7 commits, 1-3 entries on 3 keys, injected WAL failures and apply failures after a prefix) followed by a "
+                "deterministic drain; after every step the yield point reached and the horizon are compared with the model, "
+                "every probe (horizon + per-batch applied counts + failure flags) is judged against atomic visibility; "
+                "non-trivial = at least two commits and one probe; distinct = distinct op lists",
+        "assumptions": [
+            "steps between two yield points are atomic in the model; races inside one step (e.g. inside the ring-buffer CAS loop) are not explored",
+            "memtable apply is represented by the mock environment's per-entry record (the real MemTable::add is covered by C01/C06)",
+        ],
+        "trusted_base": ["modelled, not verified: CommitPipeline::{commit,publish}, CommitQueue, CommitBatch; tokio Semaphore / oneshot by their documented semantics",
+                         "the schedule controller (harness/src/sched.rs)"],
     },
 }
